@@ -81,11 +81,11 @@ let run (op_full : string) (a : string array) : string =
   | "exists_all_keys" -> show_res show_bool (exists_all_keys_w (unhex a.(0)) (hexlist a.(1)))
   | "exists_any_keys" -> show_res show_bool (exists_any_keys_w (unhex a.(0)) (hexlist a.(1)))
   | "traverse_check_string" -> show_res show_bool (traverse_check_string_w (unhex a.(0)) (unhex a.(1)))
-  | "contains" -> show_res show_bool (contains_m (unhex a.(0)) (unhex a.(1)))
-  | "array_distinct" -> show_buf prefix (array_distinct_m (unhex a.(0)) prefix)
-  | "array_intersection" -> show_buf prefix (array_intersection_m (unhex a.(0)) (unhex a.(1)) prefix)
-  | "array_except" -> show_buf prefix (array_except_m (unhex a.(0)) (unhex a.(1)) prefix)
-  | "array_overlap" -> show_res show_bool (array_overlap_m (unhex a.(0)) (unhex a.(1)))
+  | "contains" -> show_res show_bool (contains_w (unhex a.(0)) (unhex a.(1)))
+  | "array_distinct" -> show_buf prefix (array_distinct_w (unhex a.(0)) prefix)
+  | "array_intersection" -> show_buf prefix (array_intersection_w (unhex a.(0)) (unhex a.(1)) prefix)
+  | "array_except" -> show_buf prefix (array_except_w (unhex a.(0)) (unhex a.(1)) prefix)
+  | "array_overlap" -> show_res show_bool (array_overlap_w (unhex a.(0)) (unhex a.(1)))
   | "concat" -> show_buf prefix (concat_w (unhex a.(0)) (unhex a.(1)) prefix)
   | "delete_by_name" -> show_buf prefix (delete_by_name_w (unhex a.(0)) (unhex a.(1)) prefix)
   | "delete_by_index" -> show_buf prefix (delete_by_index_w (unhex a.(0)) (z_of_zt (ZA.of_string a.(1))) prefix)
